@@ -29,7 +29,7 @@ THEOREMS = [
 ]
 RULE = (
     "strings of length 0-8 over an adversarial alphabet (both quotes, backslash, newline, CR, tab, NUL, DEL, braces, percent, Latin-1 non-printables, "
-    "non-ASCII printable, astral, lone surrogate, Python fragments) plus fixed payloads; 9 splice positions; non-trivial = the string contains a character "
+    "non-ASCII printable, astral, lone surrogate, Python fragments) plus fixed payloads; 10 splice positions (one of them the NAME of an enum member used in a Literal); non-trivial = the string contains a character "
     "outside [A-Za-z0-9_]; literal-lexer inputs are repr outputs with random mutations and continuations"
 )
 
@@ -54,6 +54,7 @@ PAYLOADS = [
     "\\x41",
     "\\N{BULLET}",
     "tab\there",
+    "other.value or __import__('os').environ.setdefault('" + SENTINEL + "','1') or value",
 ]
 
 
@@ -159,7 +160,7 @@ def repr_cases(ctx, n):
 # (2) end to end
 # ---------------------------------------------------------------------------------------
 
-POSITIONS = ["meta_alias", "annotated_alias", "config_alias", "typeddict_key", "discriminator_field", "forbid_extra_keys", "literal_str", "literal_bytes", "alias_kwargs_serializer"]
+POSITIONS = ["meta_alias", "annotated_alias", "config_alias", "typeddict_key", "discriminator_field", "forbid_extra_keys", "literal_str", "literal_bytes", "alias_kwargs_serializer", "literal_enum_member_name"]
 # positions whose strings must be Python identifiers (namedtuple member names used as keys under
 # namedtuple_as_dict / serialize="as_dict"): exotic but legal identifiers, among them ones that are not
 # NFKC-stable (the compiler would normalise them if they were spliced as identifier tokens)
@@ -180,6 +181,13 @@ def rand_identifier(rng):
 
 def end_to_end(pos, s, idx):
     """returns None when the property holds, else a description"""
+    bad = _end_to_end(pos, s, idx)
+    if os.environ.pop(SENTINEL, None) is not None:
+        return "SENTINEL FIRED: schema-supplied string was executed" + (f" ({bad})" if bad else "")
+    return bad
+
+
+def _end_to_end(pos, s, idx):
     from mashumaro import DataClassDictMixin, field_options
     from mashumaro.codecs.basic import BasicDecoder, BasicEncoder
     from mashumaro.config import BaseConfig
@@ -279,10 +287,54 @@ def end_to_end(pos, s, idx):
             enc = BasicEncoder(cls).encode(cls(nt(5, 6)))
             if enc != {"p": {s: 5, "other": 6}}:
                 return f"codec: namedtuple as dict serialized as {enc!r}"
+            # the same member names in a namedtuple WITH defaults (another reading path)
+            ntd = collections.namedtuple(name + "_NTD", [s, "other"], defaults=[9])
+            ntd.__module__ = __name__
+            globals()[name + "_NTD"] = ntd
+            try:
+                if pos == "namedtuple_key":
+                    cls2 = mk({"p": ntd}, None, {"namedtuple_as_dict": True})
+                else:
+                    cls2 = mk({"p": ntd}, {"p": dataclasses.field(metadata=field_options(serialize="as_dict", deserialize="as_dict"))}, None)
+                d = cls2(ntd(1)).to_dict()
+                if d != {"p": {s: 1, "other": 9}}:
+                    return f"namedtuple (defaults) as dict serialized as {d!r}"
+                r = cls2.from_dict(d)
+                if tuple(r.p) != (1, 9):
+                    return f"namedtuple (defaults) as dict deserialized as {r!r}"
+                r = cls2.from_dict({"p": {s: 3}})
+                if tuple(r.p) != (3, 9):
+                    return f"namedtuple (defaults), key {s!r} only, deserialized as {r!r}"
+            finally:
+                globals().pop(name + "_NTD", None)
         elif pos == "literal_str":
             t = typing.Literal[(s, "other")]
             if BasicDecoder(t).decode(s) != s or BasicEncoder(t).encode(s) != s:
                 return "Literal[str] round trip"
+        elif pos == "literal_enum_member_name":
+            # member names of a functional-API enum are arbitrary strings; a Literal of such a member must still
+            # be matched by value and rebuilt as that member
+            import enum
+
+            try:
+                en = enum.Enum(name + "_E", {s: 1, "other": 2})
+                member = en[s]
+            except Exception:
+                return None        # the enum itself rejects this name: not a mashumaro matter
+            en.__module__ = __name__
+            globals()[name + "_E"] = en
+            try:
+                t = typing.Literal[(member,)]
+                cls = mk({"p": t})
+                r = cls.from_dict({"p": 1})
+                if r.p is not member:
+                    return f"Literal[enum member named {s!r}] decoded as {r.p!r}"
+                if cls(member).to_dict() != {"p": 1}:
+                    return f"Literal[enum member named {s!r}] encoded as {cls(member).to_dict()!r}"
+                if BasicDecoder(t).decode(1) is not member:
+                    return "codec: Literal[enum member] round trip"
+            finally:
+                globals().pop(name + "_E", None)
         elif pos == "literal_bytes":
             b = s.encode("utf-8", "surrogatepass")
             t = typing.Literal[(b,)]
@@ -297,8 +349,6 @@ def end_to_end(pos, s, idx):
         globals().pop(name, None)
         globals().pop(name + "_S", None)
         globals().pop(name + "_NT", None)
-    if os.environ.pop(SENTINEL, None) is not None:
-        return "SENTINEL FIRED: schema-supplied string was executed"
     return None
 
 
